@@ -20,7 +20,11 @@ for i, it in enumerate(payload["items"]):
     rec = {}
     try:
         g = Glycan(it["iupac"], **it.get("kw", {}))
-        rec["smiles"] = g.get_smiles()
+        try:
+            rec["smiles"] = g.get_smiles()
+        except Exception as e:
+            rec["smiles"] = None
+            rec["smiles_exc"] = type(e).__name__
         t = g.get_tree()
         rec["nodes"] = [[int(n), t.nodes[n]["type"].get_name(full=True)] for n in t.nodes]
         rec["edges"] = [[int(a), int(b), t.get_edge_data(a, b)["type"]] for a, b in t.edges()]
